@@ -15,7 +15,7 @@ COMMON_ASSUME = [
 
 prop("C01", [
     {"name": "c01_segmentation", "sources": ["c01_segmentation.cc"], "flavour": "asan",
-     "args": {"quick": ["--level=0", "--maxlen=150", "--mut-stride=4", "--timeout-ms=8000", "--deadline-s=160"],
+     "args": {"quick": ["--level=0", "--maxlen=140", "--mut-stride=5", "--timeout-ms=10000", "--deadline-s=420"],
               "thorough": ["--level=2", "--maxlen=420", "--mut-stride=1", "--bf2-every=4", "--timeout-ms=20000",
                            "--deadline-s=1200"]}},
 ],
@@ -29,13 +29,13 @@ prop("C01", [
     assumptions=COMMON_ASSUME + [
         "graph abstraction validated in-run by brute-force enumeration (all segmentations for n<=18, all "
         "<=2-cut segmentations for a sample of messages) and by state reproduction on replay"],
-    bounds={"quick": "messages <= 150 bytes, compact covering corpus + every 4th mutation",
+    bounds={"quick": "messages <= 140 bytes, compact covering corpus + every 5th mutation",
             "thorough": "messages <= 420 bytes, full product corpus + all mutations, until the deadline"})
 
 prop("C03", [
     {"name": "c03_robustness", "sources": ["c03_robustness.cc"], "flavour": "asan",
      "args": {"quick": ["--L=4", "--Lv=3", "--Dt=3", "--timeout-ms=8000", "--deadline-s=170"],
-              "thorough": ["--L=5", "--Lv=4", "--Dt=4", "--timeout-ms=20000", "--deadline-s=1500"]}},
+              "thorough": ["--L=5", "--Lv=4", "--Dt=4", "--tab-log2=25", "--timeout-ms=20000", "--deadline-s=1500"]}},
 ],
     rule="one case = a block of up to 512 inputs: (A) 34 parser modes x every string over a 12-symbol alphabet "
          "(letters, digits, separators, CR, LF, NUL, 0xFF) up to length L, with and without a completing tail; "
